@@ -26,6 +26,7 @@
      "keyholdsnothing" (py) the key does not keep the components alive *)
 EXTENDS UniqueCacheIdeal, TLC
 CONSTANTS Addrs, MaxSer, Mode, Variant, GcAtomic,
+          Prims,     \* the primitive types that may be requested (numbers of static table entries)
           MinAddr    \* TRUE: malloc returns the lowest free address (deterministic, for trace replay)
 VARIABLES obj,     \* obj[a]: the object at address a, or Free
           cache,   \* cache[key] = [tgt, ser, alive]: the weak reference stored under key
@@ -96,7 +97,7 @@ Request(kind, comps, n) ==
                /\ Event("obtain", nser + 1, d, d)
 
 Held == {a \in Addrs : Alloc(a) /\ obj[a].st = "live" /\ obj[a].held}
-ReqPrim(n) == n \in {0, 1} /\ Request("prim", <<>>, n)
+ReqPrim(n) == n \in Prims /\ Request("prim", <<>>, n)
 ReqPtr(a) == a \in Held /\ Request("ptr", <<a>>, 0)
 ReqArr(a) == a \in Held /\ obj[a].kind = "ptr" /\ Request("arr", <<a>>, 2)
 ReqFn(a, b) == a \in Held /\ b \in Held /\ Request("fn", <<a, b>>, 0)
@@ -150,7 +151,7 @@ SGcClear(s) == Has(s) /\ GcClear(A(s))
 SGcDealloc(s) == Has(s) /\ GcDealloc(A(s))
 SGcOne(s) == Has(s) /\ GcOne(A(s))
 
-Next == \/ \E n \in {0, 1} : ReqPrim(n)
+Next == \/ \E n \in Prims : ReqPrim(n)
         \/ \E s \in Sers : SReqPtr(s)
         \/ \E s \in Sers : SReqArr(s)
         \/ \E s \in Sers, t \in Sers : SReqFn(s, t)
